@@ -353,6 +353,19 @@ func (p *sparser) postfix() *Node {
 			p.expect(token.RBRACK)
 			n = &Node{Kind: "index", Args: []*Node{n, lo}}
 		case token.LPAREN:
+			if n.Kind == "field" {
+				p.next()
+				args := []*Node{n.Args[0]}
+				for p.peek().t != token.RPAREN {
+					args = append(args, p.expr())
+					if p.peek().t == token.COMMA {
+						p.next()
+					}
+				}
+				p.expect(token.RPAREN)
+				n = &Node{Kind: "mcall", Name: n.Name, Args: args}
+				continue
+			}
 			if n.Kind != "ident" {
 				return n
 			}
@@ -435,6 +448,7 @@ type FuncSpec struct {
 	Assumed  bool // contract is trusted, body not verified against it
 	NoPanic  bool
 	Abort    []*Clause // must hold at every panic exit ("aborts")
+	MayPanic bool
 	Props    []string
 	File     string
 }
@@ -471,6 +485,7 @@ type specFun struct {
 	Ret  string
 }
 
+var declFunRe = regexp.MustCompile(`^\(declare-fun\s+(\S+)\s+\((.*)\)\s+(\(.*\)|\S+)\s*\)$`)
 var clauseHead = regexp.MustCompile(`^(requires|ensures|modifies|invariant|decreases|aborts)(\[[A-Za-z0-9_,. ]+\])?\s+(.*)$`)
 var funcHead = regexp.MustCompile(`^func\s+(\S+)\s*$`)
 var predHead = regexp.MustCompile(`^pred\s+([A-Za-z_][A-Za-z0-9_]*)\s*\(([^)]*)\)\s*:=\s*(.*)$`)
@@ -529,7 +544,7 @@ func (db *SpecDB) loadContractFile(path, pkgPath string) error {
 	var items []string
 	isHead := func(t string) bool {
 		return clauseHead.MatchString(t) || strings.HasPrefix(t, "func ") || strings.HasPrefix(t, "pred ") || loopHead.MatchString(t) ||
-			strings.HasPrefix(t, "lemma") || t == "pure" || t == "inline" || t == "assumed" || t == "nopanic" || strings.HasPrefix(t, "props ") || strings.HasPrefix(t, "smt ")
+			strings.HasPrefix(t, "lemma") || t == "pure" || t == "inline" || t == "assumed" || t == "nopanic" || t == "maypanic" || strings.HasPrefix(t, "props ") || strings.HasPrefix(t, "smt ")
 	}
 	for _, l := range lines {
 		t := strings.TrimSpace(l)
@@ -551,7 +566,11 @@ func (db *SpecDB) loadContractFile(path, pkgPath string) error {
 	for _, it := range items {
 		switch {
 		case strings.HasPrefix(it, "smt "):
-			db.preludeDecls = append(db.preludeDecls, strings.TrimSpace(it[4:]))
+			decl := strings.TrimSpace(it[4:])
+			db.preludeDecls = append(db.preludeDecls, decl)
+			if m := declFunRe.FindStringSubmatch(decl); m != nil {
+				db.specFuns[m[1]] = &specFun{Name: m[1], Ret: strings.TrimSpace(m[3])}
+			}
 		case funcHead.MatchString(it):
 			m := funcHead.FindStringSubmatch(it)
 			cur = &FuncSpec{Pkg: pkgPath, Name: m[1], Loops: map[int]*LoopSpec{}, File: path}
@@ -587,7 +606,7 @@ func (db *SpecDB) loadContractFile(path, pkgPath string) error {
 			if cur.Loops[n] == nil {
 				cur.Loops[n] = &LoopSpec{}
 			}
-		case it == "pure" || it == "inline" || it == "assumed" || it == "nopanic":
+		case it == "pure" || it == "inline" || it == "assumed" || it == "nopanic" || it == "maypanic":
 			if cur == nil {
 				return fmt.Errorf("%s: %s outside func", path, it)
 			}
@@ -600,6 +619,8 @@ func (db *SpecDB) loadContractFile(path, pkgPath string) error {
 				cur.Assumed = true
 			case "nopanic":
 				cur.NoPanic = true
+			case "maypanic":
+				cur.MayPanic = true
 			}
 		case strings.HasPrefix(it, "props "):
 			if cur != nil {
